@@ -551,7 +551,13 @@ def cap(cell):
     out = []
     try:
         z = calc.set_weapon_zero(shot, U.Yard(100))
-        out.append({'msg': f'iteration cap {k}, accuracy 1e-300 ft: zeroing returned {z >> U.MOA!r} MOA instead of giving up', 'key': None})
+        # it may return only if it really met the accuracy, i.e. the miss is exactly zero in floating point (this does happen, rarely)
+        x_ = 300.0 * math.cos(math.radians(look))
+        back = [r for r in calc.fire(shot, U.Foot(x_), U.Foot(x_)).trajectory if r.flag & 8][-1]
+        if abs(back.target_drop >> U.Foot) > 1e-300:
+            out.append({'msg': f'iteration cap {k}, accuracy 1e-300 ft: zeroing returned {z >> U.MOA!r} MOA instead of giving up (the miss is {back.target_drop >> U.Foot!r} ft)', 'key': None})
+        else:
+            return {'vac': True, 'obs': 'exact zero reached'}
     except pb.ZeroFindingError as e:
         if e.iterations_count != k:
             out.append({'msg': f'iteration cap {k} (look {look} deg): the zero search gave up after {e.iterations_count} iterations', 'key': None})
